@@ -609,6 +609,14 @@ fn operations(thorough: bool) -> Vec<(String, Op)> {
     add("the same field twice with different sub-selections", vec![], vec![fs("user", vec![f("id")]), fs("user", vec![f("name")])], vec![]);
     add("a field directly and through a fragment", vec![], vec![fs("user", vec![f("id"), Sel::Spread { name: "F", dirs: Dirs::default() }])], vec![("F", "User", vec![f("id"), f("name")])]);
     add("merging under a variable", vec!["a"], vec![fs("user", vec![f("id")]), with(fs("user", vec![f("name")]), incl(a()))], vec![]);
+    add("the same field twice, the first sub-selection with a variable", vec!["a"], vec![fs("user", vec![f("id"), with(f("name"), skip(a()))]), fs("user", vec![fs("friend", vec![f("id")])])], vec![]);
+    add("the same field twice, the second sub-selection with a variable", vec!["a"], vec![fs("user", vec![fs("friend", vec![f("id")])]), fs("user", vec![f("id"), with(f("name"), incl(a()))])], vec![]);
+    add("a field directly with a variable inside and again through a fragment on Query", vec!["a"], vec![fs("user", vec![f("id"), with(f("name"), skip(a()))]), Sel::Spread { name: "P", dirs: Dirs::default() }], vec![("P", "Query", vec![fs("user", vec![fs("posts", vec![f("title")])])])]);
+    add("both sub-selections of a repeated field with the same variable", vec!["a"], vec![fs("user", vec![with(f("id"), skip(a()))]), fs("user", vec![with(f("name"), skip(a()))])], vec![]);
+    add("three occurrences of a field: two variables, one unconditional", vec!["a", "b"], vec![fs("user", vec![with(f("id"), skip(a()))]), fs("user", vec![with(f("name"), incl(b())), with(alias("n2", f("name")), skip(a()))]), fs("user", vec![fs("posts", vec![f("id")])])], vec![]);
+    add("both sub-selections of a repeated field with their own variable", vec!["a", "b"], vec![fs("user", vec![with(f("id"), skip(a()))]), fs("user", vec![with(f("name"), incl(b()))])], vec![]);
+    add("a repeated abstract field, one sub-selection with a variable inside a type condition", vec!["a"], vec![fs("node", vec![f("id"), on("User", vec![with(f("name"), incl(a()))])]), fs("node", vec![on("Post", vec![f("title")]), on("User", vec![fs("friend", vec![f("id")])])])], vec![]);
+    add("a repeated list field, one sub-selection with a variable", vec!["a"], vec![fs("users", vec![with(f("id"), skip(a()))]), fs("users", vec![f("name")])], vec![]);
     add("nested fragments", vec![], vec![fs("user", vec![Sel::Spread { name: "A", dirs: Dirs::default() }])], vec![("A", "User", vec![f("id"), Sel::Spread { name: "B", dirs: Dirs::default() }]), ("B", "User", vec![f("name"), fs("friend", vec![Sel::Spread { name: "C", dirs: Dirs::default() }])]), ("C", "User", vec![f("id")])]);
     if thorough {
         // every pair of directive placements on two sibling leaves
